@@ -862,6 +862,12 @@ static int _fetch_and_process_packet(OggVorbis_File *vf,
           vf->current_serialno=vf->os.serialno;
           vf->current_link++;
           link=0;
+
+          /* _fetch_headers already submitted every page it consumed,
+             including the one now held in og; submitting that page a
+             second time would look like a sequence gap and surface as
+             a spurious OV_HOLE */
+          continue;
         }
       }
     }
